@@ -17,6 +17,7 @@ import (
 	"errors"
 	"fmt"
 	"os"
+	"os/exec"
 	"path/filepath"
 	"regexp"
 	"runtime"
@@ -120,12 +121,13 @@ func c07Insert(text string, p c07Place, comment string) (string, error) {
 }
 
 // c07Lint runs the real pipeline on the file and projects its reports.
-func c07Lint(dir, cfgText, content string) (reps []c07Rep, rules [][2]int, checks [][]string, err error) {
+func c07Lint(dir, cfgText, content string) (reps []c07Rep, rules [][2]int, checks [][]string, proj []string, err error) {
 	res := pipe.Lint(dir, map[string][]byte{"rules/r.yml": []byte(content)}, []string{"rules/r.yml"},
 		pipe.Opts{Strict: true, Config: cfgText, Command: "lint"})
 	if res.Panic != "" || res.FindErr != "" || res.CfgErr != "" {
-		return nil, nil, nil, fmt.Errorf("pipeline failed: panic=%q find=%q cfg=%q", tail(res.Panic, 600), res.FindErr, res.CfgErr)
+		return nil, nil, nil, nil, fmt.Errorf("pipeline failed: panic=%q find=%q cfg=%q", tail(res.Panic, 600), res.FindErr, res.CfgErr)
 	}
+	proj = c07Proj(res)
 	ruleNo := make([]int, len(res.Entries)) // entry -> rule number (1-based) or 0
 	n := 0
 	for i, e := range res.Entries {
@@ -164,30 +166,65 @@ func c07Lint(dir, cfgText, content string) (reps []c07Rep, rules [][2]int, check
 	if reps == nil {
 		reps = []c07Rep{}
 	}
-	return reps, rules, checks, nil
+	return reps, rules, checks, proj, nil
 }
 
-type c07BinRep struct {
-	R  string `json:"r"`
-	K  string `json:"k"`
-	Ln []int  `json:"ln"`
-}
-
-func c07Binary(pint, root, tag, cfgText, content string) ([]c07BinRep, error) {
-	dir := filepath.Join(root, tag)
-	if err := os.MkdirAll(filepath.Join(dir, "rules"), 0o755); err != nil {
-		return nil, err
-	}
-	defer os.RemoveAll(dir)
-	if err := os.WriteFile(filepath.Join(dir, "rules", "r.yml"), []byte(content), 0o644); err != nil {
-		return nil, err
-	}
-	reps, _, _, err := runPint(pint, dir, dir, "bin", "lint", cfgText, nil)
+// c07Binary lints the same content with the real binary and projects the --json report the same way
+// c07Lint projects the in-process reports into `proj` (binding of the in-process pipeline to the shipped binary).
+func c07Binary(pint, root, cfgText, content string) ([]string, error) {
+	dir, err := os.MkdirTemp(root, "bin-")
 	if err != nil {
 		return nil, err
 	}
-	_ = reps
-	return nil, nil
+	defer os.RemoveAll(dir)
+	if err := os.MkdirAll(filepath.Join(dir, "rules"), 0o755); err != nil {
+		return nil, err
+	}
+	if err := os.WriteFile(filepath.Join(dir, "rules", "r.yml"), []byte(content), 0o644); err != nil {
+		return nil, err
+	}
+	cfgPath, jsonPath := filepath.Join(dir, "c.hcl"), filepath.Join(dir, "o.json")
+	if err := os.WriteFile(cfgPath, []byte(cfgText), 0o644); err != nil {
+		return nil, err
+	}
+	cmd := exec.Command(pint, "-n", "-l", "error", "--config", cfgPath, "lint", "--min-severity", "info", "--json", jsonPath, "rules")
+	cmd.Dir = dir
+	outb, _ := cmd.CombinedOutput()
+	raw, err := os.ReadFile(jsonPath)
+	if err != nil {
+		return nil, fmt.Errorf("binary wrote no report: %s", tail(string(outb), 800))
+	}
+	var reps []pintJSON
+	if err := json.Unmarshal(raw, &reps); err != nil {
+		return nil, err
+	}
+	set := map[string]bool{}
+	for _, r := range reps {
+		f, l := 0, 0
+		if len(r.Lines) > 0 {
+			f, l = r.Lines[0], r.Lines[len(r.Lines)-1]
+		}
+		set[shortHash(r.Path, r.Reporter, r.Problem, r.Details, r.Severity, f, l)] = true
+	}
+	return sortedKeys(set), nil
+}
+
+func sortedKeys(m map[string]bool) []string {
+	out := make([]string, 0, len(m))
+	for k := range m {
+		out = append(out, k)
+	}
+	sort.Strings(out)
+	return out
+}
+
+// c07Proj is the same projection computed from the in-process reports.
+func c07Proj(res pipe.Result) []string {
+	set := map[string]bool{}
+	for _, r := range res.Reports {
+		set[shortHash(r.Path, r.Reporter, r.Summary, r.Details, r.Severity, r.First, r.Last)] = true
+	}
+	return sortedKeys(set)
 }
 
 func c07Scenarios(in []json.RawMessage) (keys []string, cfgs map[string]dCfg, raws map[string]json.RawMessage, byScen map[string][]int, cases []c07Case, err error) {
@@ -223,7 +260,7 @@ func init() {
 		for si, k := range keys {
 			dir := filepath.Join(root, "s"+strconv.Itoa(si))
 			os.MkdirAll(dir, 0o755)
-			reps, rules, checks, err := c07Lint(dir, renderCfg(cfgs[k]), c07Rules)
+			reps, rules, checks, _, err := c07Lint(dir, renderCfg(cfgs[k]), c07Rules)
 			if err != nil {
 				return fmt.Errorf("scenario %d: %v", si+1, err)
 			}
@@ -236,6 +273,14 @@ func init() {
 		keys, cfgs, raws, byScen, cases, err := c07Scenarios(in)
 		if err != nil {
 			return err
+		}
+		pint, every := "", 0
+		if len(args) > 0 {
+			pint = args[0]
+			every = 20
+		}
+		if len(args) > 1 {
+			every, _ = strconv.Atoi(args[1])
 		}
 		if len(cases) == 0 {
 			return errors.New("no cases")
@@ -253,7 +298,7 @@ func init() {
 			cfgText := renderCfg(cfgs[k])
 			bdir := filepath.Join(root, fmt.Sprintf("s%d-base", si))
 			os.MkdirAll(bdir, 0o755)
-			reps, rules, checks, err := c07Lint(bdir, cfgText, c07Rules)
+			reps, rules, checks, _, err := c07Lint(bdir, cfgText, c07Rules)
 			if err != nil {
 				return fmt.Errorf("scenario %d base: %v", si+1, err)
 			}
@@ -275,15 +320,25 @@ func init() {
 					return
 				}
 				defer os.RemoveAll(dir)
-				reps, rules, checks, err := c07Lint(dir, cfgText, content)
+				reps, rules, checks, proj, err := c07Lint(dir, cfgText, content)
 				if err != nil {
 					errs[j] = fmt.Errorf("case %d (%s at %v): %v", ci+1, c.Text, c.Place, err)
 					return
 				}
+				binproj := []string{}
+				sampled := pint != "" && every > 0 && ci%every == 0
+				if sampled {
+					if binproj, err = c07Binary(pint, root, cfgText, content); err != nil {
+						errs[j] = fmt.Errorf("case %d binary: %v", ci+1, err)
+						return
+					}
+				} else {
+					proj = []string{}
+				}
 				var m map[string]json.RawMessage
 				json.Unmarshal(in[ci], &m)
 				results[j] = map[string]any{"ev": "Run", "id": ci + 1, "scen": si + 1, "rule": c.Rule, "cmt": m["cmt"], "place": m["place"],
-					"text": c.Text, "reports": reps, "rules": rules, "checks": checks}
+					"text": c.Text, "reports": reps, "rules": rules, "checks": checks, "bin": sampled, "proj": proj, "binproj": binproj}
 			})
 			for _, e := range errs {
 				if e != nil {
